@@ -42,12 +42,12 @@ LP = "leaspy.algo.personalize.lme_personalize"
 LF = "leaspy.algo.fit.lme_fit"
 
 
-def r1_constant(ctx):
-    ctx.rule("C20.R1", "constant model: prediction-type dispatch and key agreement", 8)
+def r1_constant(ctx, rid="C20.R1"):
+    ctx.rule(rid, "constant model: prediction-type dispatch and key agreement", 8)
     ix = ctx.ix
     enum = ix.find_class("PredictionType")
     members = [n for n, _ in ix.enum_members(enum)]
-    f = ix.func(CA, "ConstantPredictionAlgorithm._get_feature_values", "C20.R1")
+    f = ix.func(CA, "ConstantPredictionAlgorithm._get_feature_values", rid)
     cfg = CFG(f.node)
     handled = {}
     for n, st in cfg.stmt.items():
@@ -57,7 +57,7 @@ def r1_constant(ctx):
             handled[m] = rets[0].value if rets else None
     tail = [st for st in f.node.body if isinstance(st, ast.Return)]
     unhandled = [m for m in members if m not in handled]
-    ctx.check(len(unhandled) <= 1 and bool(tail), "C20.R1", f, f.node, f"members {sorted(handled)} tested, {unhandled} handled by the final branch",
+    ctx.check(len(unhandled) <= 1 and bool(tail), rid, f, f.node, f"members {sorted(handled)} tested, {unhandled} handled by the final branch",
               f"prediction types {unhandled} have no handler (exhaustiveness over PredictionType {members})", construct="exhaustive dispatch")
     if unhandled and tail:
         handled[unhandled[0]] = tail[0].value
@@ -69,19 +69,19 @@ def r1_constant(ctx):
     alt = {"LAST": {f"$2[{order}][0]", "$2[$1.argmax()]", "$2[np.argmax($1)]", "$2[np.asarray($1).argmax()]"}, "MAX": {"np.nanmax($2, 0)", "np.fmax.reduce($2, axis=0)", "np.fmax.reduce($2, 0)", "np.fmax.reduce($2)"}, "MEAN": {"np.nanmean($2, 0)"}}
     for m in members:
         if m not in want:
-            ctx.unknown("C20.R1", f, f.node, f"new prediction type {m}: no documented estimator to compare with", construct=f"prediction type {m}")
+            ctx.unknown(rid, f, f.node, f"new prediction type {m}: no documented estimator to compare with", construct=f"prediction type {m}")
             continue
         got = cn.text(handled[m]) if handled.get(m) is not None else None
-        ctx.check(got == want[m] or got in alt.get(m, ()), "C20.R1", f, handled.get(m) or f.node, f"{m} -> {want[m]}   ($1 = times, $2 = values)",
+        ctx.check(got == want[m] or got in alt.get(m, ()), rid, f, handled.get(m) or f.node, f"{m} -> {want[m]}   ($1 = times, $2 = values)",
                   f"prediction type {m} returns `{got}`; documented `{want[m]}` ($1 = times, $2 = values)", construct=f"prediction type {m}")
-    g = ix.func(CA, "ConstantPredictionAlgorithm._get_individual_last_values", "C20.R1")
-    ctx.check("return dict(zip($k0, $0._get_feature_values($1, $2)))" in canon_lines(g.node), "C20.R1", g, g.node, "values keyed by the feature names", "values are no longer keyed by the feature names")
-    h = ix.func(CA, "ConstantPredictionAlgorithm._compute_individual_parameters", "C20.R1")
+    g = ix.func(CA, "ConstantPredictionAlgorithm._get_individual_last_values", rid)
+    ctx.check("return dict(zip($k0, $0._get_feature_values($1, $2)))" in canon_lines(g.node), rid, g, g.node, "values keyed by the feature names", "values are no longer keyed by the feature names")
+    h = ix.func(CA, "ConstantPredictionAlgorithm._compute_individual_parameters", rid)
     hl = canon_lines(h.node, True, True)
     IP_ = "$0._get_individual_last_values($2.get_times_patient(?i), $2.get_values_patient(?i).numpy(), features=$1.features)"
     ok = unify(hl, ["for (range($2.n_individuals), ?i)", "?ip = " + IP_, "?ips.add_individual_parameters(str($2.indices[?i]), ?ip)", "return ?ips"]) is not None \
         or unify(hl, ["for (range($2.n_individuals), ?i)", "?ips.add_individual_parameters(str($2.indices[?i]), " + IP_ + ")", "return ?ips"]) is not None
-    ctx.check(ok, "C20.R1", h, h.node, "each individual's own visits, keyed by its identifier and the model's features", "the personalisation no longer uses each individual's own visits / identifier / the model's features")
+    ctx.check(ok, rid, h, h.node, "each individual's own visits, keyed by its identifier and the model's features", "the personalisation no longer uses each individual's own visits / identifier / the model's features")
     # the names the values are keyed by are those of the dataset the values are read from: the model's features are overwritten from
     # this dataset on every call (same names in another column order would otherwise attach each value to the wrong feature)
     hcfg = CFG(h.node)
@@ -89,20 +89,20 @@ def r1_constant(ctx):
     inits = [n for n, st in hcfg.stmt.items() if isinstance(st, ast.Expr) and hc.text(st.value, False) == "$1.initialize($2)"]
     loops_ = [n for n, st in hcfg.stmt.items() if isinstance(st, ast.For)]
     if not inits:
-        ctx.violation("C20.R1", h, h.node, "the model's features are not taken from the dataset being personalised (`model.initialize(dataset)` is gone): values are keyed by stale feature names",
+        ctx.violation(rid, h, h.node, "the model's features are not taken from the dataset being personalised (`model.initialize(dataset)` is gone): values are keyed by stale feature names",
                       construct="features from this dataset")
     else:
         guards = hcfg.if_guards(inits[0])
         ok = not guards and all(hcfg.dominates(inits[0], l) for l in loops_)
-        ctx.check(ok, "C20.R1", h, hcfg.stmt[inits[0]], "the model's features are overwritten from this dataset, unconditionally, before the values are keyed",
+        ctx.check(ok, rid, h, hcfg.stmt[inits[0]], "the model's features are overwritten from this dataset, unconditionally, before the values are keyed",
                   "`model.initialize(dataset)` is " + (f"only run when `{U(hcfg.stmt[guards[0][0]].test)[:80]}`" if guards else "not run before the values are read")
                   + ": with the same feature names in another column order each value is attached to the wrong feature", construct="features from this dataset")
-    m = ix.func("leaspy.models.constant", "ConstantModel.compute_individual_trajectory", "C20.R1")
+    m = ix.func("leaspy.models.constant", "ConstantModel.compute_individual_trajectory", rid)
     rets = Canon(m.node).returns()
     ok = len(rets) == 1 and rets[0] in ("torch.tensor([[[$2[%0] for %0 in $0.features]] * len($1)], dtype=torch.float32)",)
-    ctx.check(ok, "C20.R1", m, m.node, "the stored values (read by the same feature names) repeated once per requested age", "the constant trajectory is no longer the stored per-feature values repeated for each requested age")
-    c = ix.func(CA, "ConstantPredictionAlgorithm.__init__", "C20.R1")
-    ctx.check(any("= PredictionType($1.parameters['prediction_type'])" in ln for ln in canon_lines(c.node)), "C20.R1", c, c.node, "prediction type validated through the enum", "the prediction type is no longer validated through PredictionType(...)")
+    ctx.check(ok, rid, m, m.node, "the stored values (read by the same feature names) repeated once per requested age", "the constant trajectory is no longer the stored per-feature values repeated for each requested age")
+    c = ix.func(CA, "ConstantPredictionAlgorithm.__init__", rid)
+    ctx.check(any("= PredictionType($1.parameters['prediction_type'])" in ln for ln in canon_lines(c.node)), rid, c, c.node, "prediction type validated through the enum", "the prediction type is no longer validated through PredictionType(...)")
 
 
 def _nc(expr_node, env):
@@ -357,6 +357,8 @@ def rules(ctx):
     from .c13 import r5_shared_defaults
     r5_shared_defaults(ctx, rid="C20.R6", scope="leaspy.models.lme", title="no memoised method / shared container in the LME model (its lines use the normalisation of the current fit)")
     r5_shared_defaults(ctx, rid="C20.R6b", scope="leaspy.models.constant", title="no memoised method / shared container in the constant model")
+    r5_shared_defaults(ctx, rid="C20.R6c", scope="leaspy.algo.fit.lme_fit", title="no shared container in the LME fit (options of one fit - a covariance constraint - do not reach the next one)")
+    r5_shared_defaults(ctx, rid="C20.R6d", scope="leaspy.algo.personalize", title="no shared container in the personalisation algorithms of the benchmark models")
     ctx.trust("numpy nanmax / nanmean / argmax / fancy indexing semantics; statsmodels MixedLM results (fe_params, cov_re_unscaled)")
 
 
